@@ -106,4 +106,50 @@ theorem skipEmptyRel_of_shape {nodes : List (Node α)} {r f w ro app} (hsh : Sha
     (fun i nd hi hlt => (hsh.node (r + i) nd (by rw [List.getElem?_drop] at hi; exact hi)).2.1 (by omega))
   exact ⟨r + j, e, by omega, h1, by rw [← List.drop_drop, h2]⟩
 
+/-! ### readCopy -/
+
+theorem readCopy_refines [DecidableEq α] {b : LB α} {q : Q α} (hR : R b q) (l : Nat)
+    (hC : Contract q (.readCopy l) = true) :
+    ∃ b' r, b.readCopy l = some (b', r) ∧ R b' (specStep q (.readCopy l)).1 ∧
+      Matches r (specStep q (.readCopy l)).2 := by
+  obtain ⟨hd, hro, happ⟩ := readContract hC
+  unfold LB.readCopy
+  simp only [specStep]
+  by_cases h0 : l = 0 ∨ b.length = 0
+  · simp only [h0, if_true]
+    have hm : min l q.len = 0 := by rw [← hR.len]; omega
+    rw [hm]
+    refine ⟨_, _, rfl, ?_, ?_⟩
+    · have : ({ q with items := q.items.drop 0 } : Q α) = q := by cases q; simp
+      rw [this]; exact hR
+    · simp [Matches, Q.firstBytes]
+  · simp only [h0, if_false]
+    generalize hl' : (if b.length < l then b.length else l) = l'
+    have hm : min l q.len = l' := by rw [← hR.len, ← hl']; split <;> omega
+    rw [hm]
+    have hn : 0 < l' := by rw [← hl']; split <;> omega
+    have hnl : l' ≤ q.len := by omega
+    obtain ⟨s1, s2⟩ := q.stream l' hro hnl
+    have hsh := hR.shape hd
+    have hoff : ∀ nd ∈ b.nodes.drop b.r, nd.off ≤ nd.buf.length :=
+      fun nd h => hsh.off_le nd (List.mem_of_mem_drop h)
+    rw [← hR.abs, LB.abs_eq] at s1 s2
+    obtain ⟨bs, ns', k, e, hb, ha, hadv, hk⟩ := copyLoop_spec (b.nodes.drop b.r) l' hn s1 s2 hoff
+    have e' : copyLoop ((b.consumeLen l').nodes.drop (b.consumeLen l').r) l' = some (bs, ns', k) := e
+    simp only [e']
+    have hR1 : R ({ b.consumeLen l' with nodes := spliceFrom b.nodes b.r ns', r := b.r + k } : LB α)
+        { q with items := q.items.drop l' } :=
+      hR.consume hd happ hro l' hn hnl b.r hsh.r_le_f rfl ns' k hadv ha hk rfl rfl rfl rfl rfl rfl rfl
+    obtain ⟨r', e2, h1, h2, h3⟩ := skipEmptyRel_of_shape (hR1.shape hd)
+    have e2' : skipEmptyRel ((spliceFrom (b.consumeLen l').nodes (b.consumeLen l').r ns').drop
+        ((b.consumeLen l').r + k)) ((b.consumeLen l').r + k) (b.consumeLen l').f = some r' := e2
+    simp only [e2']
+    have hr'l : ¬ r' > (spliceFrom (b.consumeLen l').nodes (b.consumeLen l').r ns').length := by
+      have := (hR1.shape hd).f_le
+      exact Nat.not_lt.2 (Nat.le_trans h2 this)
+    simp only [hr'l, if_false]
+    refine ⟨_, _, rfl, hR1.compact r' h2 h3 _, ?_⟩
+    show Res.bytes bs = Res.bytes _
+    rw [hb, ← LB.abs_eq, hR.abs]; rfl
+
 end Netpoll.Buf
